@@ -12,6 +12,7 @@ mod shards;
 mod iohook;
 mod leafupd;
 mod ovl;
+mod pipeline;
 mod overflow;
 mod stress;
 mod triepos;
@@ -71,6 +72,7 @@ fn main() {
         "delta-log" => delta::run_log(seed, cases, &mut sink),
         "overflow" => overflow::run(seed, cases, &mut sink),
         "leafupd" => leafupd::run(seed, cases, &mut sink),
+        "pipeline" => pipeline::run(seed, cases, &mut sink, &args),
         "core-pp" => core_pp::run(seed, cases, &mut sink),
         "core-mp" => core_mp::run(seed, cases, &mut sink),
         "core-mp-corpus" => {
